@@ -158,6 +158,16 @@ pub fn drive_c19(out: &mut dyn std::io::Write, seed: u64, thorough: bool) {
         let a = rng.bytes(n);
         v.push((a.clone(), a.iter().map(|x| !x).collect()));
         v.push((a.clone(), a));
+        // operand STRUCTURE: the four quarters of each operand under every equality pattern (15 set partitions); a and b use
+        // the same pattern with unrelated values (broadcast detection, "first equals last" and similar shortcuts)
+        for part in LANE_PARTITIONS.iter() {
+            let q = n / 4;
+            let va: Vec<Vec<u8>> = (0..4).map(|_| rng.bytes(q)).collect();
+            let vb: Vec<Vec<u8>> = (0..4).map(|_| rng.bytes(q)).collect();
+            let a: Vec<u8> = part.iter().flat_map(|&c| va[c].clone()).collect();
+            let b: Vec<u8> = part.iter().flat_map(|&c| vb[c].clone()).collect();
+            v.push((a, b));
+        }
         let mut small = vec![0u8; n];
         let mut negsmall = vec![0xffu8; n];
         for i in (0..n).step_by(16) {
